@@ -22,7 +22,7 @@ CHECKS = {
                 'other tokens and whole documents the fixed point is decided by the correspondence of the scanner / importer / '
                 'exporter model with kernpy and by running the property on kernpy (signifiers of several characters - &( Ww TT xx yy '
                 '[y ?? - lie outside the scanner model and are round-tripped on kernpy alone). Known findings K11 (a rest inside a chord) '
-                'and K12 (combining signifiers merge in the extended round trip).',
+                'K12 (combining signifiers merge in the extended round trip) and K13 (the same in the default encoding).',
         'note': _COMMON_NOTE + 'The ANTLR grammar is modelled only on the CKL sub-language (DESIGN.md section 3); its signifier tables are validated by an exhaustive character / pair sweep on every run.',
         'technique': 'Coq proof of canonicity (sorted-NoDup uniqueness, sort permutation) + model/impl correspondence of scanner, importer and exporter + property monitors',
     },
